@@ -14,6 +14,8 @@ import (
 
 	"github.com/ory/keto/internal/check"
 	"github.com/ory/keto/internal/driver"
+	"github.com/ory/keto/internal/namespace"
+	"github.com/ory/keto/internal/namespace/ast"
 	"github.com/ory/keto/internal/relationtuple"
 	"github.com/ory/keto/internal/x"
 	"github.com/ory/keto/ketoapi"
@@ -141,6 +143,7 @@ func suiteFault(t *testing.T, cfg cfgT) {
 	defer out.close(cfg)
 	r := newRng(cfg.seed)
 	cases := 0
+	cases += faultCorpus(t, out)
 	for cases < cfg.n {
 		hr := r.fork()
 		allowNot := hr.chance(2, 3)
@@ -280,4 +283,78 @@ func suiteTerm(t *testing.T, cfg cfgT) {
 		}
 		ee.e.close()
 	}
+}
+
+// faultCorpus: structured configurations in which the requested subject IS a member of every operand, so that every
+// storage operation matters: nested intersections, negation over an intersection, a union of intersections, a
+// tuple-to-subject-set hop into an intersection.  Every storage operation of every check fails once (transient and
+// persistent); the oracle is the one of the random part.
+func faultCorpus(t *testing.T, out *sink) int {
+	n := 0
+	and := func(cs ...ast.Child) *ast.SubjectSetRewrite {
+		return &ast.SubjectSetRewrite{Operation: ast.OperatorAnd, Children: cs}
+	}
+	or := func(cs ...ast.Child) *ast.SubjectSetRewrite { return &ast.SubjectSetRewrite{Children: cs} }
+	css := func(r string) ast.Child { return &ast.ComputedSubjectSet{Relation: r} }
+	not := func(c ast.Child) ast.Child { return &ast.InvertResult{Child: c} }
+	ttu := func(r, cr string) ast.Child {
+		return &ast.TupleToSubjectSet{Relation: r, ComputedSubjectSetRelation: cr}
+	}
+	rel := func(name string, rw *ast.SubjectSetRewrite) ast.Relation {
+		return ast.Relation{Name: name, SubjectSetRewrite: rw}
+	}
+	typed := func(name, ns string) ast.Relation {
+		return ast.Relation{Name: name, Types: []ast.RelationType{{Namespace: ns}}}
+	}
+	nss := []*namespace.Namespace{{Name: "U"}, {Name: "Doc", Relations: []ast.Relation{
+		typed("owner", "U"), typed("reviewer", "U"), typed("editor", "U"), typed("banned", "U"), typed("parents", "Doc"),
+		rel("approve", and(css("owner"), css("reviewer"))),
+		rel("publish", and(css("editor"), css("approve"))),
+		rel("draft", or(not(css("publish")))),
+		rel("either", or(and(css("owner"), css("editor")), css("reviewer"))),
+		rel("inherit", and(ttu("parents", "approve"), css("editor"))),
+		rel("clean", or(not(and(css("owner"), not(css("banned")))))),
+		rel("deep", and(css("publish"), css("either"))),
+	}}}
+	tuples := []string{"Doc:d#owner@alice", "Doc:d#reviewer@alice", "Doc:d#editor@alice", "Doc:c#parents@Doc:d#", "Doc:c#editor@alice",
+		"Doc:d#owner@bob", "Doc:d#banned@bob", "Doc:c#owner@alice", "Doc:c#reviewer@alice"}
+	checks := []string{"Doc:d#approve@alice", "Doc:d#publish@alice", "Doc:d#draft@alice", "Doc:d#either@alice", "Doc:c#inherit@alice",
+		"Doc:d#clean@alice", "Doc:d#clean@bob", "Doc:d#deep@alice", "Doc:d#publish@bob", "Doc:d#draft@bob", "Doc:c#deep@alice"}
+	for _, opl := range []bool{false, true} {
+		ee := newEngineEnv(t, nss, false, opl, 40, 100)
+		for _, o := range []string{"c", "d", "alice", "bob"} {
+			ee.pool.add(o)
+		}
+		ee.header(out)
+		var ts []*ketoapi.RelationTuple
+		for _, x := range tuples {
+			tu, err := (&ketoapi.RelationTuple{}).FromString(x)
+			if err != nil {
+				t.Fatal(err)
+			}
+			ts = append(ts, tu)
+		}
+		ee.insert(t, ts)
+		ee.table(out)
+		for _, c := range checks {
+			q, _ := (&ketoapi.RelationTuple{}).FromString(c)
+			base := &storagePlan{}
+			obs0, _, _ := ee.runPlan(q, 0, base, 20*time.Second)
+			out.emit(fmt.Sprintf("echeck %s %d", fmtTuple(q), 0), obs0)
+			for k := 1; k <= base.count(); k++ {
+				for _, persistent := range []bool{false, true} {
+					obs, _, _ := ee.runPlan(q, 0, &storagePlan{failAt: k, persistent: persistent}, 20*time.Second)
+					mode := "transient"
+					if persistent {
+						mode = "persistent"
+					}
+					out.emit(fmt.Sprintf("efault %s %d %d %s", fmtTuple(q), 0, k, mode), obs)
+					out.stat("corpus.fault." + strings.Fields(obs)[0])
+					n++
+				}
+			}
+		}
+		ee.e.close()
+	}
+	return n
 }
